@@ -251,6 +251,45 @@ func extractC13() *lean {
 	}
 	l.def("createOrUpdateVersion", "List String", leanStrList([]string{verInit, verNext}), []string{verInit, verNext})
 
+	// ---- the JSON-LD contexts of a generated (stored) document vs. the empty document did:nuts publishes for a deactivation
+	c13Contexts := func(fd *ast.FuncDecl) ([]string, int) {
+		var ctxs []string
+		appends := 0
+		if fd == nil {
+			return []string{"MISSING"}, 0
+		}
+		ast.Inspect(fd, func(n ast.Node) bool {
+			switch x := n.(type) {
+			case *ast.KeyValueExpr:
+				if exprString(x.Key) == "Context" {
+					if cl, ok := x.Value.(*ast.CompositeLit); ok {
+						for _, e := range cl.Elts {
+							ctxs = append(ctxs, exprString(e))
+						}
+					} else {
+						ctxs = append(ctxs, "<not a literal>")
+					}
+				}
+			case *ast.AssignStmt:
+				for _, l := range x.Lhs {
+					if strings.HasSuffix(exprString(l), ".Context") {
+						appends++
+					}
+				}
+			}
+			return true
+		})
+		return ctxs, appends
+	}
+	_, ormDoc := parseFile("storage/orm/did_document.go")
+	genCtx, genAssign := c13Contexts(c13Method(ormDoc, "DidDocument", "GenerateDIDDocument"))
+	_, nutsMgr := parseFile("vdr/didnuts/manager.go")
+	nutsCtx, nutsAssign := c13Contexts(funcDecl(nutsMgr, "CreateDocument"))
+	l.def("generatedDocumentContexts", "List String", leanStrList(genCtx), genCtx)
+	l.def("generatedDocumentContextAssignments", "Nat", fmt.Sprint(genAssign), genAssign)
+	l.def("nutsEmptyDocumentContexts", "List String", leanStrList(nutsCtx), nutsCtx)
+	l.def("nutsEmptyDocumentContextAssignments", "Nat", fmt.Sprint(nutsAssign), nutsAssign)
+
 	// ---- did:web: Commit is a no-op that cannot fail, IsCommitted is always true
 	_, web := parseFile("vdr/didweb/manager.go")
 	l.def("webCommitReturnsNil", "Bool", c13Bool(c13ReturnsOnly(c13Method(web, "Manager", "Commit"), "nil")), c13ReturnsOnly(c13Method(web, "Manager", "Commit"), "nil"))
